@@ -1,5 +1,5 @@
 """C29 LSP positions and edits map exactly onto the document."""
-REG_DRAFT = dict(
+REG = dict(
     engine='E1-enum',
     technique='bounded-exhaustive enumeration of documents x offsets on the real conversion functions (in-Rust loop), and of documents x positions/selections x edit-producing requests on the real LSP handlers, edits applied by an independent LSP 3.17 text model and compared with the real command-line refactorings',
     text="(a) every document of length <=5 (quick) / <=7 (thorough) over {a, e-acute, euro, emoji, CR, LF} x every character-boundary offset: offset -> (line, UTF-16 column) -> offset must be the identity (real offset_to_lsp_position / line_char_to_offset); for every such document the range of whole_document_range, read with the specification's line terminators and clamping, must cover the document, and the position of every offset must be the UTF-16 position of the independent model. (b) a pool of ~40 documents (ASCII, non-ASCII in strings and comments, CRLF, lone CR, no trailing newline, empty, multi-line strings, parse errors) x {formatting, rename at every character-boundary position, codeAction at every empty selection and every token/node span (thorough: every pair of token boundaries)}: the TextEdits returned by the real handlers are applied by gvlib/lsp_text.py and must give exactly the text of format::format / rename / extract_variable / extract_function / wrap_in_dbg / add_type_annotation / destructure / the autofix splice at the byte offsets the server itself derives from the request positions.",
